@@ -7,7 +7,7 @@ namespace GoZero.C06
 /-- **Coherence invariant**: an entry whose ghost origin is `loaded` holds exactly what the database holds
 for its key (row / primary key / placeholder iff absent). -/
 def Coh (s : St) : Prop :=
-  ∀ k e, s.cache k = some e → e.origin = .loaded → e.val = dbView s k
+  ∀ (k : Slot) e, s.cache k = some e → e.origin = .loaded → e.val = dbView s k.2
 
 /-- same database. -/
 def SameDb (s s' : St) : Prop := s'.rows = s.rows ∧ s'.idx = s.idx
@@ -29,6 +29,16 @@ theorem SameDb.trans {a b c : St} (h1 : SameDb a b) (h2 : SameDb b c) : SameDb a
 /-- the cache of `s'` is the cache of `s` with some entries removed. -/
 def Shrinks (s s' : St) : Prop := ∀ k, s'.cache k = s.cache k ∨ s'.cache k = none
 
+theorem Shrinks.refl (s : St) : Shrinks s s := fun _ => Or.inl rfl
+
+theorem Shrinks.trans {a b c : St} (h1 : Shrinks a b) (h2 : Shrinks b c) : Shrinks a c := by
+  intro k
+  rcases h2 k with h | h
+  · rcases h1 k with h' | h'
+    · exact Or.inl (h.trans h')
+    · exact Or.inr (h.trans h')
+  · exact Or.inr h
+
 theorem coh_of_shrinks {s s' : St} (hc : Coh s) (hd : SameDb s s') (hs : Shrinks s s') : Coh s' := by
   intro k e hk ho
   rw [dbView_of_sameDb hd]
@@ -38,35 +48,35 @@ theorem coh_of_shrinks {s s' : St} (hc : Coh s) (hd : SameDb s s') (hs : Shrinks
 
 /-! ### getCache -/
 
-theorem getCache_sameDb (s : St) (k : CKey) (m : List Bool) : SameDb s (getCache s k m).1 := by
+theorem getCache_sameDb (s : St) (n : Nat) (k : CKey) (m : List Bool) : SameDb s (getCache s n k m).1 := by
   unfold getCache
   repeat' split
   all_goals exact ⟨rfl, rfl⟩
 
-theorem getCache_shrinks (s : St) (k : CKey) (m : List Bool) : Shrinks s (getCache s k m).1 := by
+theorem getCache_shrinks (s : St) (n : Nat) (k : CKey) (m : List Bool) : Shrinks s (getCache s n k m).1 := by
   unfold getCache
   intro k'
   repeat' split
   all_goals simp [upd]
-  all_goals (by_cases h : k' = k <;> simp [h])
+  all_goals (by_cases h : k' = (n, k) <;> simp [h])
 
-theorem getCache_tasks (s : St) (k : CKey) (m : List Bool) :
-    (getCache s k m).1.tasks = s.tasks ∧ (getCache s k m).1.gaveUp = s.gaveUp := by
+theorem getCache_tasks (s : St) (n : Nat) (k : CKey) (m : List Bool) :
+    (getCache s n k m).1.tasks = s.tasks ∧ (getCache s n k m).1.gaveUp = s.gaveUp := by
   unfold getCache
   repeat' split
   all_goals exact ⟨rfl, rfl⟩
 
-theorem getCache_coh {s : St} (hc : Coh s) (k : CKey) (m : List Bool) : Coh (getCache s k m).1 :=
-  coh_of_shrinks hc (getCache_sameDb s k m) (getCache_shrinks s k m)
+theorem getCache_coh {s : St} (hc : Coh s) (n : Nat) (k : CKey) (m : List Bool) : Coh (getCache s n k m).1 :=
+  coh_of_shrinks hc (getCache_sameDb s n k m) (getCache_shrinks s n k m)
 
 /-- a GET that fails: store error, one command, state untouched. -/
-theorem getCache_fail (s : St) (k : CKey) (m : List Bool) (h : failAt m 0 = true) :
-    getCache s k m = (s, .err, [(.get, true)]) := by
+theorem getCache_fail (s : St) (n : Nat) (k : CKey) (m : List Bool) (h : failAt m 0 = true) :
+    getCache s n k m = (s, .err, [⟨.get, n, [k], true⟩]) := by
   unfold getCache; simp [h]
 
 /-- a hit comes from the entry stored under the key. -/
-theorem getCache_hit {s : St} {k : CKey} {m : List Bool} {v : CVal} (h : (getCache s k m).2.1 = .hit v) :
-    ∃ e, s.cache k = some e ∧ e.val = v ∧ parses k v = true ∧ (getCache s k m).1 = s := by
+theorem getCache_hit {s : St} {n : Nat} {k : CKey} {m : List Bool} {v : CVal} (h : (getCache s n k m).2.1 = .hit v) :
+    ∃ e, s.cache (n, k) = some e ∧ e.val = v ∧ parses k v = true ∧ (getCache s n k m).1 = s := by
   unfold getCache at h ⊢
   split at h
   · cases h
@@ -83,8 +93,8 @@ theorem getCache_hit {s : St} {k : CKey} {m : List Bool} {v : CVal} (h : (getCac
           split <;> simp_all
         · split at h <;> cases h
 
-theorem getCache_placeholder {s : St} {k : CKey} {m : List Bool} (h : (getCache s k m).2.1 = .placeholder) :
-    ∃ e, s.cache k = some e ∧ e.val = .ph ∧ (getCache s k m).1 = s := by
+theorem getCache_placeholder {s : St} {n : Nat} {k : CKey} {m : List Bool} (h : (getCache s n k m).2.1 = .placeholder) :
+    ∃ e, s.cache (n, k) = some e ∧ e.val = .ph ∧ (getCache s n k m).1 = s := by
   unfold getCache at h ⊢
   split at h
   · cases h
@@ -99,8 +109,8 @@ theorem getCache_placeholder {s : St} {k : CKey} {m : List Bool} (h : (getCache 
         · split at h <;> cases h
 
 /-- a miss: either nothing is stored, or what is stored does not unmarshal (and is not the placeholder). -/
-theorem getCache_miss {s : St} {k : CKey} {m : List Bool} (h : (getCache s k m).2.1 = .miss) :
-    failAt m 0 = false ∧ (s.cache k = none ∨ ∃ e, s.cache k = some e ∧ e.val ≠ .ph ∧ parses k e.val = false) := by
+theorem getCache_miss {s : St} {n : Nat} {k : CKey} {m : List Bool} (h : (getCache s n k m).2.1 = .miss) :
+    failAt m 0 = false ∧ (s.cache (n, k) = none ∨ ∃ e, s.cache (n, k) = some e ∧ e.val ≠ .ph ∧ parses k e.val = false) := by
   unfold getCache at h
   split at h
   · cases h
@@ -119,9 +129,9 @@ theorem getCache_miss {s : St} {k : CKey} {m : List Bool} (h : (getCache s k m).
           exact ⟨e, he, hv, by simpa using hp⟩
 
 /-- a live entry (placeholder or parsable) is found by a GET that does not fail. -/
-theorem getCache_live {s : St} {k : CKey} {m : List Bool} {e : Entry} (he : s.cache k = some e)
+theorem getCache_live {s : St} {n : Nat} {k : CKey} {m : List Bool} {e : Entry} (he : s.cache (n, k) = some e)
     (hl : e.val = .ph ∨ parses k e.val = true) (hf : failAt m 0 = false) :
-    getCache s k m = (s, (if e.val = .ph then .placeholder else .hit e.val), [(.get, false)]) := by
+    getCache s n k m = (s, (if e.val = .ph then .placeholder else .hit e.val), [⟨.get, n, [k], false⟩]) := by
   unfold getCache
   simp only [hf, he]
   by_cases hv : e.val = .ph
@@ -139,14 +149,14 @@ theorem setnx_sameDb (s : St) (k t f) : SameDb s (setnx s k t f) := by
   unfold setnx; repeat' split
   all_goals exact ⟨rfl, rfl⟩
 
-theorem setex_coh {s : St} (hc : Coh s) (k : CKey) (v : CVal) (t : Nat) (o : Origin) (f : Bool)
-    (hv : o = .loaded → v = dbView s k) : Coh (setex s k v t o f) := by
+theorem setex_coh {s : St} (hc : Coh s) (k : Slot) (v : CVal) (t : Nat) (o : Origin) (f : Bool)
+    (hv : o = .loaded → v = dbView s k.2) : Coh (setex s k v t o f) := by
   unfold setex
   split
   · exact hc
   · intro k' e hk ho
-    have : dbView { s with cache := upd s.cache k (some ⟨v, t * 1000, o⟩) } k' = dbView s k' :=
-      dbView_of_sameDb ⟨rfl, rfl⟩ k'
+    have : dbView { s with cache := upd s.cache k (some ⟨v, t * 1000, o⟩) } k'.2 = dbView s k'.2 :=
+      dbView_of_sameDb ⟨rfl, rfl⟩ k'.2
     rw [this]
     simp only [upd] at hk
     by_cases h : k' = k
@@ -157,7 +167,7 @@ theorem setex_coh {s : St} (hc : Coh s) (k : CKey) (v : CVal) (t : Nat) (o : Ori
     · simp [h] at hk
       exact hc k' e hk ho
 
-theorem setnx_coh {s : St} (hc : Coh s) (k : CKey) (t : Nat) (f : Bool) (hv : dbView s k = .ph) :
+theorem setnx_coh {s : St} (hc : Coh s) (k : Slot) (t : Nat) (f : Bool) (hv : dbView s k.2 = .ph) :
     Coh (setnx s k t f) := by
   unfold setnx
   split
@@ -165,8 +175,8 @@ theorem setnx_coh {s : St} (hc : Coh s) (k : CKey) (t : Nat) (f : Bool) (hv : db
   · split
     · exact hc
     · intro k' e hk ho
-      have : dbView { s with cache := upd s.cache k (some ⟨.ph, t * 1000, .loaded⟩) } k' = dbView s k' :=
-        dbView_of_sameDb ⟨rfl, rfl⟩ k'
+      have : dbView { s with cache := upd s.cache k (some ⟨.ph, t * 1000, .loaded⟩) } k'.2 = dbView s k'.2 :=
+        dbView_of_sameDb ⟨rfl, rfl⟩ k'.2
       rw [this]
       simp only [upd] at hk
       by_cases h : k' = k
@@ -207,8 +217,8 @@ theorem dbIndex_row {s : St} {a : Nat} {r : Nat × CVal} (h : dbIndex s a = some
 
 theorem takeP_coh (c : Cfg) {s : St} (hc : Coh s) (pk j : Nat) (m : List Bool) (dbf : Bool) :
     Coh (takeP c s pk j m dbf).1 := by
-  have hg := getCache_coh hc (.p pk) m
-  have hd := getCache_sameDb s (.p pk) m
+  have hg := getCache_coh hc (c.place (.p pk)) (.p pk) m
+  have hd := getCache_sameDb s (c.place (.p pk)) (.p pk) m
   unfold takeP
   simp only []
   split
@@ -225,8 +235,8 @@ theorem takeP_coh (c : Cfg) {s : St} (hc : Coh s) (pk j : Nat) (m : List Bool) (
 
 theorem qindex_coh (c : Cfg) {s : St} (hc : Coh s) (a j : Nat) (m : List Bool) (dbf : Bool) :
     Coh (qindex c s a j m dbf).1 := by
-  have hg := getCache_coh hc (.x a) m
-  have hd := getCache_sameDb s (.x a) m
+  have hg := getCache_coh hc (c.place (.x a)) (.x a) m
+  have hd := getCache_sameDb s (c.place (.x a)) (.x a) m
   unfold qindex
   simp only []
   split
@@ -242,15 +252,15 @@ theorem qindex_coh (c : Cfg) {s : St} (hc : Coh s) (a j : Nat) (m : List Bool) (
       · rename_i r hr
         split
         · exact hg
-        · have h1 : Coh (setex (getCache s (.x a) m).1 (.p r.1) r.2 (ttlSec c.exp j + safeGapSec) .loaded false) :=
+        · have h1 : Coh (setex (getCache s (c.place (.x a)) (.x a) m).1 (c.slot (.p r.1)) r.2 (ttlSec c.exp j + safeGapSec) .loaded false) :=
             setex_coh hg _ _ _ _ _ (fun _ => by
               rw [dbView_of_sameDb hd]; exact (dbView_p_of_row (dbIndex_row hr)).symm)
           exact setex_coh h1 _ _ _ _ _ (fun _ => by
             rw [dbView_of_sameDb (setex_sameDb _ _ _ _ _ _), dbView_of_sameDb hd]
             exact (dbView_x_of_some hr).symm)
 
-theorem getOp_coh {s : St} (hc : Coh s) (k : CKey) (m : List Bool) : Coh (getOp s k m).1 := by
-  have hg := getCache_coh hc k m
+theorem getOp_coh (c : Cfg) {s : St} (hc : Coh s) (k : CKey) (m : List Bool) : Coh (getOp c s k m).1 := by
+  have hg := getCache_coh hc (c.place k) k m
   unfold getOp
   simp only []
   split <;> exact hg
@@ -259,21 +269,69 @@ theorem setOp_coh (c : Cfg) {s : St} (hc : Coh s) (k v e j m) : Coh (setOp c s k
   unfold setOp
   exact setex_coh hc _ _ _ _ _ (fun h => by cases h)
 
-theorem delOp_coh {s : St} (hc : Coh s) (ks : List CKey) (m : List Bool) : Coh (delOp s ks m).1 := by
-  unfold delOp
-  split
-  · exact hc
-  · split
-    · exact coh_of_shrinks hc ⟨rfl, rfl⟩ (fun k => Or.inl rfl)
-    · refine coh_of_shrinks hc ⟨rfl, rfl⟩ (fun k => ?_)
-      simp only [delKeys]
-      by_cases h : k ∈ ks <;> simp [h]
+/-! ### DelCtx: every layer only removes entries and only appends tasks -/
 
-theorem markChanged_coh {s : St} (hc : Coh s) (w : Write) (ks : List CKey) :
-    Coh { applyWrite s w with cache := markChanged s (applyWrite s w) ks } := by
+/-- same database, entries only removed, tasks only appended, nothing given up. -/
+structure DelStep (s s' : St) : Prop where
+  db : SameDb s s'
+  shr : Shrinks s s'
+  tasks : ∃ l, s'.tasks = s.tasks ++ l
+  gave : s'.gaveUp = s.gaveUp
+
+theorem DelStep.refl (s : St) : DelStep s s := ⟨SameDb.refl s, Shrinks.refl s, ⟨[], by simp⟩, rfl⟩
+
+theorem DelStep.trans {a b c : St} (h1 : DelStep a b) (h2 : DelStep b c) : DelStep a c := by
+  obtain ⟨l1, e1⟩ := h1.tasks
+  obtain ⟨l2, e2⟩ := h2.tasks
+  exact ⟨h1.db.trans h2.db, h1.shr.trans h2.shr, ⟨l1 ++ l2, by rw [e2, e1, List.append_assoc]⟩, h2.gave.trans h1.gave⟩
+
+theorem delOne_step (s : St) (n : Nat) (ks : List CKey) (f : Bool) : DelStep s (delOne s n ks f) := by
+  unfold delOne
+  split
+  · exact ⟨⟨rfl, rfl⟩, Shrinks.refl _, ⟨_, rfl⟩, rfl⟩
+  · refine ⟨⟨rfl, rfl⟩, fun k => ?_, ⟨[], by simp⟩, rfl⟩
+    simp only [delKeys]
+    split
+    · exact Or.inr rfl
+    · exact Or.inl rfl
+
+theorem delLoop_step (n : Nat) (ks : List CKey) : ∀ (s : St) (m : List Bool), DelStep s (delLoop s n ks m).1 := by
+  induction ks with
+  | nil => intro s m; exact DelStep.refl s
+  | cons k ks ih =>
+    intro s m
+    simp only [delLoop]
+    exact (delOne_step s n [k] _).trans (ih _ _)
+
+theorem nodeDel_step (cl : Bool) (s : St) (n : Nat) (ks : List CKey) (m : List Bool) :
+    DelStep s (nodeDel cl s n ks m).1 := by
+  unfold nodeDel
+  split
+  · exact DelStep.refl s
+  · split
+    · exact delLoop_step n ks s m
+    · exact delOne_step s n ks _
+
+theorem clusterDel_step (c : Cfg) (ks : List CKey) (masks : List (List Bool)) (ns : List Nat) :
+    ∀ s : St, DelStep s (clusterDel c ks masks ns s).1 := by
+  induction ns with
+  | nil => intro s; exact DelStep.refl s
+  | cons n ns ih =>
+    intro s
+    simp only [clusterDel]
+    exact (nodeDel_step _ s n _ _).trans (ih _)
+
+theorem delOp_step (c : Cfg) (s : St) (ks : List CKey) (m : List (List Bool)) : DelStep s (delOp c s ks m).1 :=
+  clusterDel_step c ks m _ s
+
+theorem delOp_coh (c : Cfg) {s : St} (hc : Coh s) (ks : List CKey) (m : List (List Bool)) : Coh (delOp c s ks m).1 :=
+  coh_of_shrinks hc (delOp_step c s ks m).db (delOp_step c s ks m).shr
+
+theorem markChanged_coh (c : Cfg) {s : St} (hc : Coh s) (w : Write) (ks : List CKey) :
+    Coh { applyWrite s w with cache := markChanged c s (applyWrite s w) ks } := by
   intro k e hk ho
-  have hv : dbView { applyWrite s w with cache := markChanged s (applyWrite s w) ks } k = dbView (applyWrite s w) k :=
-    dbView_of_sameDb ⟨rfl, rfl⟩ k
+  have hv : dbView { applyWrite s w with cache := markChanged c s (applyWrite s w) ks } k.2 = dbView (applyWrite s w) k.2 :=
+    dbView_of_sameDb ⟨rfl, rfl⟩ k.2
   rw [hv]
   simp only [markChanged] at hk
   split at hk
@@ -292,16 +350,16 @@ theorem markChanged_coh {s : St} (hc : Coh s) (w : Write) (ks : List CKey) :
         exact absurd ho hne
   · cases hk
 
-theorem execOp_coh {s : St} (hc : Coh s) (ks : List CKey) (w : Write) (m : List Bool) (dbf : Bool) :
-    Coh (execOp s ks w m dbf).1 := by
+theorem execOp_coh (c : Cfg) {s : St} (hc : Coh s) (ks : List CKey) (w : Write) (m : List (List Bool)) (dbf : Bool) :
+    Coh (execOp c s ks w m dbf).1 := by
   unfold execOp
   split
   · exact hc
-  · exact delOp_coh (markChanged_coh hc w ks) ks m
+  · exact delOp_coh c (markChanged_coh c hc w ks) ks m
 
 theorem expire_coh {s : St} (hc : Coh s) (ms : Nat) : Coh { s with cache := expire s.cache ms } := by
   intro k e hk ho
-  have hv : dbView { s with cache := expire s.cache ms } k = dbView s k := dbView_of_sameDb ⟨rfl, rfl⟩ k
+  have hv : dbView { s with cache := expire s.cache ms } k.2 = dbView s k.2 := dbView_of_sameDb ⟨rfl, rfl⟩ k.2
   rw [hv]
   simp only [expire] at hk
   split at hk
@@ -312,31 +370,28 @@ theorem expire_coh {s : St} (hc : Coh s) (ms : Nat) : Coh { s with cache := expi
       exact hc k e0 he0 ho
   · cases hk
 
-theorem tick_coh {s : St} (hc : Coh s) (cf : Bool) : Coh (tick s cf).1 := by
+theorem tick_coh {s : St} (hc : Coh s) (down : List Bool) : Coh (tick s down).1 := by
   unfold tick
   refine coh_of_shrinks hc ⟨rfl, rfl⟩ (fun k => ?_)
-  simp only []
-  split
-  · exact Or.inl rfl
-  · simp only [delKeys]
-    by_cases h : k ∈ dueKeys s.tasks <;> simp [h]
+  simp only [delKeys]
+  by_cases h : k ∈ dueSlots (downOf down) s.tasks <;> simp [h]
 
 theorem step_coh (c : Cfg) {s : St} (hc : Coh s) (op : Op) : Coh (step c s op).1 := by
   cases op with
   | take pk j m dbf => exact takeP_coh c hc pk j m dbf
   | qindex a j m dbf => exact qindex_coh c hc a j m dbf
-  | get k m => exact getOp_coh hc k m
-  | exec ks w m dbf => exact execOp_coh hc ks w m dbf
-  | del ks m => exact delOp_coh hc ks m
+  | get k m => exact getOp_coh c hc k m
+  | exec ks w m dbf => exact execOp_coh c hc ks w m dbf
+  | del ks m => exact delOp_coh c hc ks m
   | set k v e j m => exact setOp_coh c hc k v e j m
   | raw k v t =>
     simp only [step]
     intro k' e hk ho
-    have hv : dbView { s with cache := upd s.cache k (if t = 0 then none else some ⟨v, t, .explicit⟩) } k' = dbView s k' :=
-      dbView_of_sameDb ⟨rfl, rfl⟩ k'
+    have hv : dbView { s with cache := upd s.cache (c.slot k) (if t = 0 then none else some ⟨v, t, .explicit⟩) } k'.2 = dbView s k'.2 :=
+      dbView_of_sameDb ⟨rfl, rfl⟩ k'.2
     rw [hv]
     simp only [upd] at hk
-    by_cases h : k' = k
+    by_cases h : k' = c.slot k
     · simp [h] at hk
       rcases hk with ⟨_, hk⟩
       subst hk
